@@ -43,6 +43,8 @@ func init() {
 			add("deep/bytewise", c06Alpha, d1, nil)
 			add("wide/bytewise", c06Alpha, d1, nil)
 			add("rot/bytewise", c06Alpha, d2, nil)
+			add("tightcomp/bytewise", c06Alpha, d1, nil)
+			add("throttle/bytewise", c06Alpha, d2, nil)
 			add("flushy/bytewise", emptyKeyAlpha, d1, emptyKeyProbes)
 			add("deep/bytewise", emptyKeyAlpha, d2, emptyKeyProbes)
 			add("mixed/bytewise", shapeAlpha, d2, shapeProbes)
